@@ -164,8 +164,26 @@ def make_wcs(rng, shape, family, with_shape=True):
         return make_probe(rng, shape, with_shape, kind="coupled")
     if family == "probe_extra":
         return make_probe(rng, shape, with_shape, extra_world=True)
+    if family == "probe_drop":
+        return make_probe(rng, shape, with_shape, drop_world=True)
     if family in ("fits_sep", "fits_cel", "fits_rot"):
         return make_fits(rng, shape, family, with_shape)
+    if family == "fits_sliced":
+        # an already-wrapped WCS with fewer pixel than world axes: a (rotated) celestial FITS WCS
+        # with one of its two celestial pixel axes indexed away
+        from astropy.wcs.wcsapi.wrappers import SlicedLowLevelWCS
+        full = tuple(shape) + (rng.choice([3, 4]),)
+        w = make_fits(rng, full, rng.choice(["fits_rot", "fits_cel"]), True)
+        n = len(full)
+        cel = [i for i, c in enumerate(w.wcs.ctype) if c.startswith("HPL")]
+        drop_pix = rng.choice(cel)
+        arr_ax = n - 1 - drop_pix
+        # put the dropped axis last in array order by choosing the shape accordingly
+        shp = list(shape); shp.insert(arr_ax, full[-1])
+        w.array_shape = tuple(shp)
+        item = [slice(None)] * n
+        item[arr_ax] = rng.choice([0, 1, 2])
+        return SlicedLowLevelWCS(w, tuple(item))
     if family == "gwcs":
         return make_gwcs(rng, shape)
     raise ValueError(family)
